@@ -41,7 +41,7 @@ def runCallback (h : Hook) (uid : Option Nat) (data : Option Bytes) (isLast : Bo
     | none => (c, .ok)
   | .regTxHooks =>
     match uid with
-    | some u => (c.modTx u (fun t => { t with txReqBodyHook := t.txReqBodyHook + 1, txResBodyHook := t.txResBodyHook + 1 }), .ok)
+    | some u => (c.modTx u (fun t => { t with reqBodyHooks := t.reqBodyHooks ++ [.user], txResBodyHook := t.txResBodyHook + 1 }), .ok)
     | none => (c, .ok)
 
 /-- the same callback registered `n` times on one hook (htp_hook_run_all stops at the first non-OK) -/
@@ -135,9 +135,47 @@ def urlencBodyCallback (cfg : Cfg) (uid : Nat) (data : Option Bytes) (c : Conn) 
         else
           let u := { u with flags := t.flags, status := t.expectedStatus }
           let u := Urlenc.finalize cfg.urlencCfg u
-          let ps := u.params.reverse.map (fun (n, v) => ({ name := n, value := v, source := 3 } : Param))
+          let ps := u.params.reverse.map (fun (n, v) => ({ name := n, value := some v, source := 3 } : Param))
           (c.setTx { t with urlenBody := some u, flags := u.flags, expectedStatus := u.status,
                             params := t.params ++ ps }, .ok)
+
+/-- the FILE_DATA hook calls made by the multipart parser during one call (oldest first); their return
+    codes are ignored by htp_mpart_part_handle_data / htp_mpart_part_finalize_data -/
+def mpartFileEvents (uid : Nat) : List (Nat × Option Bytes) → Conn → Conn
+  | [], c => c
+  | (_, d) :: rest, c => mpartFileEvents uid rest (runCallback .requestFileData (some uid) d false c).1
+
+/-- htp_ch_multipart_callback_request_body_data: the library's multipart body callback (tx-level hook) -/
+def mpartBodyCallback (uid : Nat) (data : Option Bytes) (c : Conn) : R :=
+  match c.findTx uid with
+  | none => (c, .ok)
+  | some t =>
+    match t.mpart with
+    | none => (c, .ok)
+    | some mp =>
+      if t.mpartGaveUp then (c, .error) else
+      let mp := { mp with events := [] }
+      match data with
+      | some d =>
+        let mp := Multipart.parse mp d
+        let c := c.setTx { t with mpart := some { mp with events := [] } }
+        (mpartFileEvents uid mp.events.reverse c, .ok)
+      | none =>
+        let mp := Multipart.finalize mp
+        let parts := mp.done.reverse ++ mp.cur.toList
+        let ps := (parts.filter (fun pt => pt.type == Multipart.T_TEXT)).map
+          (fun pt => ({ name := pt.name.getD [], value := pt.value, source := 3 } : Param))
+        let c := c.setTx { t with mpart := some { mp with events := [] }, mpartGaveUp := true, params := t.params ++ ps }
+        (mpartFileEvents uid mp.events.reverse c, .ok)
+
+/-- htp_hook_run_all over the transaction's own REQUEST_BODY_DATA hook -/
+def runTxReqBodyHooks (cfg : Cfg) (uid : Nat) (data : Option Bytes) (isLast : Bool) (gapLen : Nat) : List TxHook → Conn → R
+  | [], c => (c, .ok)
+  | h :: hs, c =>
+    (match h with
+     | .user => runCallback .txRequestBodyData (some uid) data isLast c gapLen
+     | .urlenc => urlencBodyCallback cfg uid data c
+     | .mpart => mpartBodyCallback uid data c) >>? fun c => runTxReqBodyHooks cfg uid data isLast gapLen hs c
 
 /-- htp_req_run_hook_body_data -/
 def reqRunHookBodyData (cfg : Cfg) (data : Option Bytes) (gapLen : Nat) (c : Conn) : R :=
@@ -147,10 +185,9 @@ def reqRunHookBodyData (cfg : Cfg) (data : Option Bytes) (gapLen : Nat) (c : Con
   | none => (c, .ok)
   | some uid =>
     let t := c.inTx
-    -- transaction hooks first: library urlencoded handler, then a user-registered tx hook
-    (if t.urlenBody.isSome then urlencBodyCallback cfg uid data c else (c, .ok)) >>? fun c =>
     let isLast := data.isNone && gapLen == 0
-    runCallbackN t.txReqBodyHook .txRequestBodyData (some uid) data isLast gapLen c >>? fun c =>
+    -- transaction hooks first (library content handlers and user-registered tx hooks, in registration order)
+    runTxReqBodyHooks cfg uid data isLast gapLen t.reqBodyHooks c >>? fun c =>
     runCallback .requestBodyData (some uid) data isLast c gapLen >>? fun c =>
     if c.putFile then runCallback .requestFileData (some uid) data false c gapLen else (c, .ok)
 
@@ -378,9 +415,20 @@ def txProcessRequestHeaders (cfg : Cfg) (uid : Nat) (c : Conn) : R :=
       match t.reqContentType with
       | some ct =>
         if Bstr.beginsWithMem ct (b!"application/x-www-form-urlencoded") then
-          c.setTx { t with urlenBody := some {} }
+          c.setTx { t with urlenBody := some {}, reqBodyHooks := t.reqBodyHooks ++ [.urlenc] }
         else c
       | none => c
+    else c
+  -- htp_ch_multipart_callback_request_headers (HTP_DECLINED when there is no usable boundary)
+  let c :=
+    if cfg.multipartParser then
+      let t := (c.findTx uid).getD t
+      match t.reqContentType, getHeaderC t.reqHeaders (b!"content-type") with
+      | some _, some ct =>
+        (match Multipart.findBoundary ct.value with
+         | (some b, flags) => c.setTx { t with mpart := some (Multipart.create b flags), reqBodyHooks := t.reqBodyHooks ++ [.mpart] }
+         | (none, _) => c)
+      | _, _ => c
     else c
   runCallback .requestHeaders (some uid) none false c
 
@@ -409,7 +457,7 @@ def urlencQueryCallback (cfg : Cfg) (uid : Nat) (c : Conn) : Conn :=
       if q.length == 0 then c else
       let u : Urlenc.S := { flags := t.flags, status := t.expectedStatus }
       let u := Urlenc.finalize cfg.urlencCfg (Urlenc.feed cfg.urlencCfg u q)
-      let ps := u.params.reverse.map (fun (n, v) => ({ name := n, value := v, source := 1 } : Param))
+      let ps := u.params.reverse.map (fun (n, v) => ({ name := n, value := some v, source := 1 } : Param))
       c.setTx { t with flags := u.flags, expectedStatus := u.status, params := t.params ++ ps }
 
 /-- htp_tx_state_request_line -/
